@@ -29,28 +29,28 @@ P = {
  "C09": dict(cat="exploration", tech="property-based testing of the real engine process over generated (position, limit-combination) sessions with a legality and deadline oracle",
    text="Sessions of 1..5 go commands with any mix of depth/nodes/movetime/clock/increment limits including 0, 1 and tiny budgets (idle commands in between; every third go continues the previous game, half of those as a complete search followed two plies later by a go that completes no iteration; capture-saturated positions under time-bounded go), self-play flows of 24-40 searches in one engine process, and tiny trees under huge budgets; exactly one legal bestmove before limit+3 s, then readyok.",
    note="Rules oracle for legality; deadlines are generous stand-ins for 'in time'; harness-side failures are exit 2.", ref="5 C09"),
- "C10": dict(cat="exploration", tech="schedule-forcing property-based testing: generated command scripts delivered at labelled search-thread events (cfg hook schedule points) on the real binary",
+ "C10": dict(cat="exploration", tech="schedule-forcing property-based testing: generated command scripts delivered at labelled search-thread events (cfg hook schedule points) on the real binary; stop storms, isready storms and an idle-at-the-end oracle",
    text="Labelled schedule points hold each window named by the property open; the harness delivers stop/go/position/ucinewgame/isready inside it by event and requires one legal bestmove per go, prompt end after stop and no refused conformant command; plus stop storms (hundreds of go/stop rounds with generated micro-delays, incl. capture-saturated positions) for races inside the search's own polling that no label brackets.",
    note="Only orders needing a window at a labelled point are reached; deadlines include the injected sleeps, so forcing cannot create a false alarm.", ref="5 C10"),
- "C11": dict(cat="exploration", tech="differential testing of the search against an unpruned reference negamax on the oracle board, caching neutralised by a cfg hook",
+ "C11": dict(cat="exploration", tech="differential testing of the search against an unpruned reference negamax on the oracle board, caching neutralised by a cfg hook; generators steered by rule-sensitivity counts (reference re-run with one rule broken); coverage-guided libFuzzer campaign (fuzz_search) in the thorough tier",
    text="(position, history, depth) cases incl. mate nets, stalemates, fifty-move clocks, remembered repetitions, promotion structures, check chains and discovered-check set-ups; engine root score and chosen move value must equal the exact minimax value of the engine's own look-ahead game computed without pruning, ordering or cache.",
    note="Reference in vf/refsearch.rs on the independent oracle; root handled as the engine handles it; cases beyond the reference's node budget are skipped and counted.", ref="5 C11"),
- "C12": dict(cat="exploration", tech="property-based testing with an exhaustive 3-ply mate classifier as oracle, over generated cache histories",
+ "C12": dict(cat="exploration", tech="property-based testing with an exhaustive 3-ply mate classifier as oracle, over generated cache histories; oracle-steered generators (castling mates, en-passant evasions); libFuzzer campaign (fuzz_search) in the thorough tier",
    text="Positions classified M1/M2/avoidable-threat by exhaustive analysis (mate nets, minor-piece endings, game positions), searched on a live cache after 0..3 earlier searches of the same position at other depths; the chosen move must satisfy the class predicate (M1 and avoid-mate exactly; M2 = keeps a forced mate: only a provable loss of the mate is a violation).",
    note="Oracle predicates in vf/mate.rs; chosen move read from the search's own bestmove line.", ref="5 C12"),
- "C13": dict(cat="fault_enumeration", tech="fault enumeration: every node budget and every stop-at-k-th-write point of each search, against the prefix-of-uninterrupted-log invariant",
+ "C13": dict(cat="fault_enumeration", tech="fault enumeration: every node budget and every stop-at-k-th-write point of each search, against the prefix-of-uninterrupted-log invariant, plus randomised stops from a second thread",
    text="For each position/depth the search is re-run with EVERY node budget 1..S, with stop injected at every cache write, and with movetime and game-clock cuts; the interrupted run's cache-write log must be an element-wise prefix of the uninterrupted log, no write may follow the cut, and the cache contents left behind must equal what the log implies (so in-place modifications and writes past the insert sites are seen). This enumerates the interruption points the property quantifies over.",
    note="Assumes determinism (C16) and that hook H2 reports every insert; blind spot: a post-cut write identical in content and node count to the uninterrupted one.", ref="5 C13"),
- "C14": dict(cat="exploration", tech="property-based testing of the real engine's info output with a UCI grammar parser and PV replay on the rules oracle",
+ "C14": dict(cat="exploration", tech="property-based testing of the real engine's info output with a UCI grammar parser and PV replay on the rules oracle; game flows, a soak session and long searches",
    text="go depth N (N=1..5; 40 and 255 on a forced mate) and node/time-limited searches over generated positions, mate-net roots with either side to move, game-flow sessions (6-10 searches along a game in one process) and searches under an isready flood; every stdout line must be valid, depths must be 1..k without gaps or repeats (k == N for depth-only), every PV must replay legally.",
    note="Rules oracle for PV legality; mate distance not asserted.", ref="5 C14"),
  "C15": dict(cat="exploration", tech="grammar-based fuzzing of the UCI input with a liveness oracle (readyok, clean quit, exit on end-of-input); text-level mutation fuzzing in-process (blind in quick, coverage-guided libFuzzer in thorough) with a no-panic oracle",
    text="Sessions of 1..25 lines from a grammar over the UCI vocabulary with dropped/duplicated/reordered/junk arguments, blank, over-long, non-ASCII and non-UTF-8 lines; the engine must stay alive and responsive, quit cleanly and terminate on end-of-input at any point.",
    note="FEN arguments are always valid (the statement's assumption); 3 s stands in for 'promptly'.", ref="5 C15"),
- "C16": dict(cat="exploration", tech="repetition testing: equality of (best move, score, nodes) across repeated in-process runs, separate processes and CPU load, and of the bench node total",
+ "C16": dict(cat="exploration", tech="repetition testing: equality of (best move, score, nodes) across repeated in-process runs, separate processes and CPU load, and of the bench node total; cold-start storm of thousands of fresh processes; searches under an isready flood",
    text="Fixed-depth searches (with and without game history) from an empty cache repeated in one process (with other searches in between), in separate processes, under busy-loop load and with one bench run frozen for 6 s (SIGSTOP = extreme load, deterministically); over UCI in fresh engine processes, after ucinewgame with the command loop held at schedule points, with the advertised options set, and one deep search in three concurrent processes; the real bench subcommand run concurrently; all results must be identical.",
    note="No oracle beyond equality; load is generated by the harness.", ref="5 C16"),
- "C17": dict(cat="exploration", tech="metamorphic property-based testing (colour mirror => equal, side swap => negated)",
+ "C17": dict(cat="exploration", tech="metamorphic property-based testing (colour mirror => equal, side swap => negated); libFuzzer campaign (fuzz_search) in the thorough tier",
    text="Synthesised positions with independent material per side, game positions and the corpus; eval(P) == eval(mirror(P)) and eval(P) == -eval(P with the other side to move) when that twin is valid.",
    note="Mirror is the oracle's; material within legal bounds so the evaluator's saturating arithmetic is not reached.", ref="5 C17"),
 }
@@ -73,6 +73,7 @@ m = {
 if os.path.isdir('/verif/harness/fuzz'):
     m["engines"].append({"name": "fuzz_play", "path": "harness/fuzz", "serves_properties": ["C01","C02","C03","C04","C07"], "kind_free_text": "cargo-fuzz/libFuzzer target whose bytes are decoded into the same generators; oracles run inside the target; used by the thorough tiers"})
     m["engines"].append({"name": "fuzz_uci", "path": "harness/fuzz", "serves_properties": ["C08","C15"], "kind_free_text": "cargo-fuzz/libFuzzer target whose bytes are the text of a UCI session; every line is classified by a strict oracle-side reading of the grammar (harness/src/vf/fuzzuci.rs) and the C08/C15 oracles run inside; used by the thorough tiers, the same oracle with blind mutations by the quick tiers"})
+    m["engines"].append({"name": "fuzz_search", "path": "harness/fuzz", "serves_properties": ["C11","C12","C17"], "kind_free_text": "cargo-fuzz/libFuzzer target (16 independent -jobs processes sharing one corpus) whose bytes select depth / search history and are otherwise decoded like fuzz_play into a start position and a played line; the C11 differential, the C12 predicates and the C17 symmetry run inside (harness/src/vf/fuzzsearch.rs); used by the thorough tiers"})
 for p in props:
     i = p["id"]
     if i in built:
